@@ -333,16 +333,16 @@ const fmtRule = "documents: journals from G (clean pool), journals with one dama
 
 func init() {
 	Register(&Prop{
-		ID:   "C04",
-		Rule: fmtRule + "C04 oracle: the AST meaning fingerprint (dates, status, code, descriptions, accounts, exact quantities, commodities, costs, assertions, comments, tags, directives, includes) and the published diagnostics are identical before and after; lines that are not posting lines of a parsed transaction change only by loss of trailing blanks; on lines carrying a syntax error the sequence of non-blank characters is unchanged. Non-trivial = document with >=1 parsed posting; distinct by text+configuration hash.",
+		ID:    "C04",
+		Rule:  fmtRule + "C04 oracle: the AST meaning fingerprint (dates, status, code, descriptions, accounts, exact quantities, commodities, costs, assertions, comments, tags, directives, includes) and the published diagnostics are identical before and after; lines that are not posting lines of a parsed transaction change only by loss of trailing blanks; on lines carrying a syntax error the sequence of non-blank characters is unchanged. Non-trivial = document with >=1 parsed posting; distinct by text+configuration hash.",
 		Notes: []string{"edits that are not well-formed make the case inconclusive for C04 (they are C05's verdict)", "clean pool excludes the feature sets listed as findings of C03/C04"},
 		Cases: fmtCounts, MustObserve: []string{"formatted", "documents_with_edits", "meaning_compared"},
 		Setup:   func(c *Ctx) { c.State = &fmtState{bad: c.Known.BadFeatureSets("C03", "C04")} },
 		RunCase: func(c *Ctx, idx int64) { runFormat(c, idx, "C04") },
 	})
 	Register(&Prop{
-		ID:   "C05",
-		Rule: fmtRule + "C05 oracle: every edit lies inside the document with start <= end on code-point boundaries and no two edits overlap; formatting the formatted text changes nothing; with alignment on every posting line of the result starts with exactly the configured indent, and all amounts after an account without status mark start in one rune column >= indent + longest account (with its brackets) + 2 and >= the minimum column. Non-trivial = document with >=2 postings carrying amounts; distinct by text+configuration hash.",
+		ID:    "C05",
+		Rule:  fmtRule + "C05 oracle: every edit lies inside the document with start <= end on code-point boundaries and no two edits overlap; formatting the formatted text changes nothing; with alignment on every posting line of the result starts with exactly the configured indent, and all amounts after an account without status mark start in one rune column >= indent + longest account (with its brackets) + 2 and >= the minimum column. Non-trivial = document with >=2 postings carrying amounts; distinct by text+configuration hash.",
 		Notes: []string{"clean pool excludes the feature sets listed as findings of C03/C04/C05"},
 		Cases: fmtCounts, MustObserve: []string{"formatted", "documents_with_edits", "idempotence_checked", "alignment_checked"},
 		Setup:   func(c *Ctx) { c.State = &fmtState{bad: c.Known.BadFeatureSets("C03", "C04", "C05")} },
@@ -591,7 +591,7 @@ func c05JudgeText(c *Ctx, fc fmtCase, after string) (kind, detail string) {
 	longest := 0
 	type pl struct {
 		line, col int
-		text    string
+		text      string
 	}
 	var amts []pl
 	for _, t := range j.Transactions {
